@@ -296,6 +296,7 @@ func Execute(sc *Scenario, call func(ctx context.Context) (any, error), hasResul
 	defer cancel()
 	r := NewRun(sc, cancel)
 	res := Result{ID: sc.ID, Inj: sc.Inj, Kind: sc.Kind}
+	baseline, _ := leaked(sc.Inj) // goroutines left over by earlier scenarios of the same injector
 	if sc.CancelOn != nil && sc.CancelOn.Kind == "before" {
 		r.mu.Lock()
 		r.events = append(r.events, Event{Seq: 0, Kind: "cancel"})
@@ -335,7 +336,9 @@ func Execute(sc *Scenario, call func(ctx context.Context) (any, error), hasResul
 	for _, wait := range []int{20, 80, 250} {
 		time.Sleep(time.Duration(wait) * time.Millisecond)
 		res.Leaked, res.LeakInfo = leaked(sc.Inj)
-		if res.Leaked == 0 {
+		res.Leaked -= baseline
+		if res.Leaked <= 0 {
+			res.Leaked = 0
 			break
 		}
 	}
